@@ -38,7 +38,10 @@ def run(ctx):
         "with another address, upper-case hex, not hex, 31/33/0 bytes, an entry of unknown type, a bad address after a good one; VAAs: emitters "
         "from a pool of 4 (two sharing the chain, two sharing the address), an emitter nobody filters for, undecodable bytes (wrong version, "
         "truncated, empty), a signed VAA with an EMPTY payload (Marshal output that Unmarshal rejects; 1 in 8); one scale sequence per run "
-        "that starts with 520-719 live subscriptions and three publishes; leaving by context cancellation and by Send error; after every Publish a sentinel is pushed through every live "
+        "that starts with 520-719 live subscriptions and three publishes; VAAs with 19/20/21/40/255 signatures (1 in 5); a message published "
+        "before published again (identical bytes, or the same body with another signature list / the next set index; 1 in 8); the same filter "
+        "two to four times in one request; for VAAs the harness built itself the emitter it was built with (em=) decides the Spec even when the "
+        "decoder rejects the bytes; leaving by context cancellation and by Send error; after every Publish a sentinel is pushed through every live "
         "subscription so the per-subscriber counts are exact. isolation scenarios (3, run side by side, each on its own server): subscriber A's "
         "client stops reading after the first VAA (unfiltered / filtered A) or stops reading and later disconnects, while up to 6 VAAs are "
         "published one after the other; as soon as a Publish has not returned after 300 ms a new registration (C), the removal of another "
@@ -51,6 +54,8 @@ def run(ctx):
         "departing-subscriber scenarios (2): a subscriber that has read everything disconnects; the fake stream holds its handler at the "
         "Context() call after it woke on ctx.Done(), one matching VAA is published in that window, then the handler is let go "
         "(clause departing-subscriber-blocks-publish: nobody is stalled there). "
+        "every stall scenario also records whether, once the stalled client reads again or has disconnected, the held-up Publish and all handlers "
+        "finish within the deadline (clause not-recovered-after-subscriber-resumes - weaker than the statement, met by the pinned code). "
         "distinct_nontrivial = lines on which the implementation agreed with the model and satisfied the Spec")
     ctx.cov["trusted_base"] += [
         "harness/spy/spy_verif_test.go (fake grpc.ServerStream, sentinel barrier, deadlines) and Whv/Driver/Spy.lean (comparison, Spec evaluation)",
